@@ -44,6 +44,12 @@ func genC07(t *rapid.T) C07Case {
 		g.Prog.Main = append(g.Prog.Main, ragen.Line{K: ragen.KEntry, T: "k={{holed}}"})
 		lab["undefined-reference-inside-definition"] = true
 	}
+	// a value that uses another definition more than once
+	if rapid.IntRange(0, 3).Draw(t, "multiref") == 0 {
+		g.Prog.Main = append([]ragen.Line{{K: ragen.KDefine, Name: "aa1", T: "[0-9]{1,3}"}, {K: ragen.KDefine, Name: "zz9", T: `{{aa1}}\.{{aa1}}\.{{aa1}}`}, {K: ragen.KDefine, Name: "a0", T: "{{zz9}}-{{zz9}}"}}, g.Prog.Main...)
+		g.Prog.Main = append(g.Prog.Main, ragen.Line{K: ragen.KEntry, T: "ip={{zz9}}"}, ragen.Line{K: ragen.KEntry, T: "range={{a0}}"})
+		lab["definition-used-several-times-in-one-value"] = true
+	}
 	// references inside included text are expanded with the including file's definitions
 	var defNames []string
 	for _, l := range g.Prog.Main {
